@@ -3,6 +3,7 @@
 import logging
 
 import numpy as np
+import scipy.optimize
 
 from pyhf import exceptions
 from pyhf.optimize.common import shim
@@ -66,6 +67,24 @@ class OptimizerMixin:
             log.error(result, exc_info=True)
             raise exceptions.FailedMinimization(result)
         return result
+
+    def _no_free_parameters_result(self, minimizer_kwargs):
+        """
+        The fit result for an objective without any free parameter.
+
+        Returns:
+            fitresult (scipy.optimize.OptimizeResult): the fit result
+        """
+        value = minimizer_kwargs['func'](minimizer_kwargs['x0'])
+        if minimizer_kwargs['do_grad']:
+            value = value[0]
+        return scipy.optimize.OptimizeResult(
+            x=np.asarray(minimizer_kwargs['x0'], dtype=float),
+            success=True,
+            fun=value,
+            message="No free parameters to minimize.",
+            nfev=1,
+        )
 
     def _internal_postprocess(self, fitresult, stitch_pars, return_uncertainties=False):
         """
@@ -191,9 +210,14 @@ class OptimizerMixin:
                 par_names[index] = None
             par_names = [name for name in par_names if name]
 
-        result = self._internal_minimize(
-            **minimizer_kwargs, options=kwargs, par_names=par_names
-        )
+        if len(minimizer_kwargs['x0']) == 0:
+            # every parameter is fixed and stitched out: there is nothing to
+            # minimize, the objective just gets evaluated at the fixed values
+            result = self._no_free_parameters_result(minimizer_kwargs)
+        else:
+            result = self._internal_minimize(
+                **minimizer_kwargs, options=kwargs, par_names=par_names
+            )
         result = self._internal_postprocess(
             result, stitch_pars, return_uncertainties=return_uncertainties
         )
